@@ -959,6 +959,29 @@ def mixed_chain_packet(label_hops, run, records=3, label_first=True):
     return b
 
 
+def field_matrix_packets():
+    """Records whose fixed fields are combined freely: every type with a rule of its own (A, AAAA, NS, MX, SOA, DNAME, TXT, OPT) under
+    classes IN / CH / HS / NONE / ANY / 0 / 65535 with declared data lengths 0, 1, the natural one and one more, in the answer and in
+    the additional section, last in the packet and followed by another record."""
+    q = wire_name([b"a"]) + struct.pack(">HH", 1, 1)
+    nat = {1: b"\1\2\3\4", 28: bytes(range(16)), 2: b"\xc0\x0c", 15: b"\0\5\xc0\x0c", 6: b"\xc0\x0c\xc0\x0c" + bytes(20), 39: b"\1b\0",
+           16: b"\3abc", 41: b""}
+    out = []
+    for t, data in nat.items():
+        for cls in (1, 3, 4, 254, 255, 0, 65535):
+            for rdlen in sorted(set([0, 1, len(data), len(data) + 1])):
+                rd = (data + b"\0")[:rdlen] if rdlen <= len(data) + 1 else data
+                owner = b"\0" if t == 41 else b"\xc0\x0c"
+                rec = owner + struct.pack(">HHIH", t, cls, 60, rdlen) + rd
+                tail = b"\xc0\x0c" + struct.pack(">HHIH", 16, 1, 60, 4) + b"\3xyz"
+                for follow in (False, True):
+                    for sec in (0, 2):
+                        cnt = [0, 0, 0]
+                        cnt[sec] = 2 if follow else 1
+                        out.append(struct.pack(">HHHHHH", 0x4646, 0x8180, 1, cnt[0], cnt[1], cnt[2]) + q + rec + (tail if follow else b""))
+    return out
+
+
 def limit_product_packet(nlabels, hops, spread=False):
     """Both limits of a name at once: `nlabels` one-byte labels (127 of them make the maximal 255-byte name) read through `hops`
     pointers. The material sits in the opaque data of a NULL record; an A record is owned by a pointer to its head. With spread=True the
